@@ -3,7 +3,7 @@ import json, sys, glob, os, subprocess
 pid = sys.argv[1]
 base = subprocess.run(['/venv/bin/python', '/verif/tools/agent_prompt.py', pid], capture_output=True, text=True).stdout
 prev = []
-for d in sorted(glob.glob('/verif/seeded/*')):
+for d in sorted(os.path.dirname(x) for x in glob.glob('/verif/seeded/*/meta.json')):
     m = json.load(open(d + '/meta.json'))
     if m['breaks_property'] == pid or pid in os.path.basename(d):
         n = open(d + '/notes.md').read().strip().split('\n')
